@@ -50,7 +50,7 @@ PROPERTIES = {
                "returned is Some with that value and columns == f(value); Some is stable; never Some for an unassigned "
                "index; both snapshot iterators yield each index of [start,end) exactly once with complete items only; "
                "count() is non-decreasing and >= pushes completed before it was invoked.",
-        assumptions=COMMON_ASSUMPTIONS + ["indices above MAX_ENTRIES (where Location::of panics by design) are not generated"],
+        assumptions=COMMON_ASSUMPTIONS + ["get_unchecked is only called with indices a push returned (its documented precondition); look-ups through get use any u32"],
         probes_expected=["oracle.c08", "boxcar.cas_lost"],
         miri=[MIRI_BOXCAR] + MIRI_BOXCAR_SCRIPTS,
     ),
